@@ -5,6 +5,7 @@ L10b `UnitExtract` — mirrors recognizers_number_with_unit/number_with_unit/ext
                                               currencies; ambiguous-multiplier trimming; separate units)
   `NumberWithUnitExtractor._extract_separate_units`, `_select_candidates`
   `ChineseNumberWithUnitExtractorConfiguration.expand_half_suffix`
+  `BaseMergedUnitExtractor.__merge_pure_number` / `__merged_compound_units` (grouping as span arithmetic, at the end)
 
 The function is modelled as a function of what it receives from un-modelled parts (all of them **parameters**):
   * the source string;
